@@ -13,7 +13,7 @@ func init() {
 	register("C17", []string{"./internal/compact", "."}, runC17)
 	register("C45", []string{".", "./internal/compact", "./internal/rangekey", "./internal/rangekeystack"}, runC45)
 	register("C08", []string{".", "./internal/rangekey", "./internal/rangekeystack", "./internal/compact", "./internal/keyspan"}, runC08)
-	propExplain["C17"] = "Decides guard clauses of C17 in the compaction iterator: sequence numbers are zeroed only on the true edge of isBottommostSnapshotStripe, which is IsBottommostDataLayer && stripe 0; inside Next, keys are skipped (skipInStripe / single-delete elision) only where a tombstone may be elided in the LAST snapshot stripe or where a range tombstone covers the key VISIBLY to the stripe's snapshot; inside a stripe a key is dropped only if covered visibly; range tombstones are elided only in stripe 0; every kind dispatch names all point kinds or fails closed; the snapshot list reaches the iterator (C03.G1). (S1) sibling agreement: singleDeleteNext and skipDueToSingleDeleteElision both handle a SETWITHDEL met by a SINGLEDEL in a different arm than SET/MERGE (as a delete). Does not decide that the emitted key/value is the right one."
+	propExplain["C17"] = "Decides guard clauses of C17 in the compaction iterator: sequence numbers are zeroed only on the true edge of isBottommostSnapshotStripe, which is IsBottommostDataLayer && stripe 0; inside Next, keys are skipped (skipInStripe / single-delete elision) only where a tombstone may be elided in the LAST snapshot stripe or where a range tombstone covers the key VISIBLY to the stripe's snapshot; inside a stripe a key is dropped only if covered visibly; range tombstones are elided only in stripe 0; every kind dispatch names all point kinds or fails closed; the snapshot list reaches the iterator (C03.G1). (S1) sibling agreement: singleDeleteNext and skipDueToSingleDeleteElision both handle a SETWITHDEL met by a SINGLEDEL in a different arm than SET/MERGE (as a delete). (U1) in the packages that implement key visibility, whole user keys are never compared with bytes.Equal/bytes.Compare (the configured comparer decides what the same user key is). Does not decide that the emitted key/value is the right one."
 	propExplain["C45"] = "Decides structural clauses of C45: internal scans pin their view before reading the visible sequence number (C01.O1 for newInternalIter), release it when construction fails, and every kind dispatch in the point-collapsing iterator and scanInternalImpl names all point / range-key kinds or fails closed. Does not decide replay equivalence."
 	propExplain["C08"] = "Decides the dispatch clause of C08: every switch over the range-key kinds (coalescing, user-iterator shadowing, encode/decode, memtable routing) names RangeKeySet, RangeKeyUnset and RangeKeyDelete or fails closed, and memTable.apply routes DeleteRange to the range-deletion skiplist and the three range-key kinds to the range-key skiplist (DeleteRange never removes range keys); and the sort-discipline clause: every sort of []keyspan.Key whose comparator ignores the trailer (CoalesceInto's by-suffix sort, on which \"the newest key at a suffix wins\" rests) is a stable sort. Does not decide defragmentation or bounds (value-level)."
 }
@@ -25,6 +25,7 @@ func runC17(c *Ctx) {
 		c.Unresolved("C17.T1", "fewer than 5 kind switches in internal/compact")
 	}
 	runC17S1(c)
+	runC17U1(c)
 	// G1: zeroing only in the bottommost stripe
 	nz := 0
 	for _, fn := range c.P.AllFuncs {
@@ -443,4 +444,54 @@ func runC17S1(c *Ctx) {
 		}
 		c.Ob("C17.S1", fn, "a SINGLEDEL treats a SETWITHDEL beneath it like a DELETE, not like a SET", c.P.Pos(first.Stmt.Pos()), ok, detail)
 	}
+}
+
+// runC17U1: "the same user key" is decided by the configured Comparer, never by byte equality: a
+// comparer may treat differently encoded keys as equal (the CockroachDB comparer does), and the
+// compaction iterator's stripe logic — which versions of a key shadow which — rests on that
+// equality. In the packages that implement key visibility no call of bytes.Equal / bytes.Compare
+// takes a whole InternalKey.UserKey as an argument (prefixes returned by Split.Prefix are
+// byte-comparable by the Comparer contract and are fine).
+func runC17U1(c *Ctx) {
+	scope := map[string]bool{modPath: true, pkgAlias["compact"]: true, pkgAlias["rangekey"]: true, pkgAlias["keyspan"]: true}
+	isWholeUserKey := func(v ssa.Value) bool {
+		v = stripConv(v)
+		f := fieldOfValue(v)
+		if f == nil || f.Name() != "UserKey" {
+			return false
+		}
+		_, isSlice := v.(*ssa.Slice)
+		return !isSlice
+	}
+	nCmp := 0
+	for _, fn := range c.P.AllFuncs {
+		top := TopLevel(fn)
+		if top.Pkg == nil || !scope[top.Pkg.Pkg.Path()] || fn.Origin() != nil {
+			continue
+		}
+		for _, b := range fn.Blocks {
+			for _, in := range b.Instrs {
+				call, ok := in.(*ssa.Call)
+				if !ok {
+					continue
+				}
+				cal := call.Common().StaticCallee()
+				if cal == nil || cal.Pkg == nil || cal.Pkg.Pkg.Path() != "bytes" || (cal.Name() != "Equal" && cal.Name() != "Compare") {
+					continue
+				}
+				nCmp++
+				bad := false
+				for _, a := range call.Common().Args {
+					if isWholeUserKey(a) {
+						bad = true
+					}
+				}
+				if bad {
+					c.Ob("C17.U1", fn, "user keys are compared with the configured comparer", c.P.Pos(call.Pos()), false,
+						"bytes."+cal.Name()+" is applied to a whole UserKey: two encodings the comparer treats as one key become different keys, so versions of one key no longer shadow each other (a deleted value comes back, duplicates are emitted)")
+				}
+			}
+		}
+	}
+	c.Ob("C17.U1", nil, "byte comparisons in the visibility packages examined", "", nCmp > 0, "")
 }
